@@ -10,6 +10,8 @@ from typing import Tuple
 import inspect
 
 USED_SOURCES = {}
+# Path of the file whose text is held in USED_SOURCES under each (base) file name.
+_SOURCE_PATHS = {}
 REFS = []
 
 # Global variable that holds the map of source references
@@ -62,16 +64,18 @@ class SourceRef:
         # This is to prevent 'nada_fn' wrongly adding nada_dsl source files from this package.
         if _in_package(backend_frame.f_code.co_filename):
             return 0, 0
-        filename = os.path.basename(backend_frame.f_code.co_filename)
+        path = backend_frame.f_code.co_filename
+        filename = os.path.basename(path)
 
         src = None
         try:
-            if filename not in USED_SOURCES:
-                with open(
-                    f"{backend_frame.f_code.co_filename}", encoding="utf-8"
-                ) as file:
+            # The text is cached per file: another file with the same base name
+            # (e.g. a program compiled later in the same process) is read again.
+            if filename not in USED_SOURCES or _SOURCE_PATHS.get(filename) != path:
+                with open(path, encoding="utf-8") as file:
                     src = file.read()
                 USED_SOURCES[filename] = src
+                _SOURCE_PATHS[filename] = path
             else:
                 src = USED_SOURCES[filename]
         except OSError:
